@@ -36,6 +36,9 @@ type CrashSpec struct {
 	Inc    int    `json:"inc"`     // which incarnation (1-based)
 	AtGate int    `json:"at_gate"` // after this many gates of that incarnation
 	Kind   string `json:"kind"`    // kill, powerloss, sigterm, sigint, torn
+	// When, if set, delays the interruption until it holds (evaluated at every step
+	// once AtGate gates have passed).
+	When func(r *Run) bool `json:"-"`
 }
 
 // StallSpec freezes every process for D at controller step AtStep.
@@ -84,6 +87,7 @@ type RunCfg struct {
 	// Overrides is the content of the --overrides file: partially qualified node
 	// name -> {"force_volatile": bool, "chunk.threads": x, ...}
 	Overrides        map[string]map[string]interface{}
+	AllSlow          bool   // every job computes for ten simulated minutes
 	MarkSuperseded   bool   // an attempt that finds itself replaced produces recognisably different outputs
 	OutKinds         bool   // a file-typed output may be missing, a symlink, or a path outside the pipestance (C13)
 	Companions       bool   // stages may write x.idx next to an output file x
@@ -161,6 +165,7 @@ type FileRec struct {
 // ClusterJob is a job handed to the simulated cluster scheduler (qsub).
 type ClusterJob struct {
 	Id        string
+	Inc       int // mrp incarnation which submitted it
 	SubmitSeq int
 	Rec       *JobRec   // nil until the scheduler starts it
 	Proc      *vrt.Proc // nil until started
@@ -712,7 +717,7 @@ func (r *Run) Execute() {
 		}
 		if r.crashIdx < len(cfg.Crashes) {
 			c := cfg.Crashes[r.crashIdx]
-			if c.Inc == r.Inc && r.Mrp.Gates >= c.AtGate {
+			if c.Inc == r.Inc && r.Mrp.Gates >= c.AtGate && (c.When == nil || c.When(r)) {
 				r.crashIdx++
 				if c.Kind == "torn" {
 					if t := r.findTornCandidate(parked); t != nil {
